@@ -508,6 +508,11 @@ def rowData (md : ModeData α) (K : Ktensor α) (n jj : Nat) : List α × Mat α
     let idx := (List.range S.subs.length).filter fun k => (S.subs.getD k []).getD n 0 == jj
     (idx.map (vget S.vals), piRows K n (idx.map fun k => S.subs.getD k []))
 
+/-- `isSparse` as handed to the row sub-problem helpers. -/
+def mdSparse : ModeData α → Bool
+  | .sparse _ => true
+  | .dense _ _ => false
+
 /-- "The row jj of matricized tensor X in mode n is empty": no stored entry (sparse),
 `not np.any(x_row)` (dense). -/
 def rowEmpty (o : NumOps α) (md : ModeData α) (x : List α) : Bool :=
@@ -522,7 +527,7 @@ def nwRow (o : NumOps α) (c : Consts α) (cfg : Cfg α) (alg : Alg) (dir : Dir 
   let xp := rowData md K n jj
   if rowEmpty o md xp.1 then .ok { acc with A := acc.A.set jj (List.replicate R 0) }
   else
-    let sparse := match md with | .sparse _ => true | .dense _ _ => false
+    let sparse := mdSparse md
     let s0 : RowSt α := ⟨acc.A.getD jj [], acc.kktMode, false, 0⟩
     let res := match alg with
       | .pqnr => pqnrRow o c cfg (dir iteration n jj) sparse xp.1 xp.2 R cfg.maxinner 0 s0
